@@ -21,6 +21,7 @@ import XsdataModel.Proofs.C09NsRel
 import XsdataModel.Proofs.C09Infoset
 import XsdataModel.Proofs.C09XInclude
 import XsdataModel.Proofs.C09WsDeep
+import XsdataModel.Proofs.C09AttrDeep
 
 namespace Props.C09
 open Py Xs.Bind Proofs.C09
@@ -94,6 +95,35 @@ theorem attrs_dict_order_witness :
       (.node "Root".toList [("k2".toList, "w".toList), ("k1".toList, "v".toList)] [] none [] none)) "attrs"
       = some [("k2".toList, "w".toList), ("k1".toList, "v".toList)] := by
   decide
+
+/-! ## 1b. attribute order at every level of the document -/
+
+/-- **attr_order_invariant_deep**: for a universe in which every class satisfies `metaAttrDeep`
+(attribute entries with different names belong to different fields, no `Attributes` field, no
+wildcard field, and every element / choice field is bound by an `ElementNode` or a `PrimitiveNode`:
+`coreNoAny` — a class type, or neither `object` typed nor a wildcard choice, so that no
+`WildcardNode` / `StandardNode`, whose `AnyElement.attributes` keeps the document order, is ever
+created), permuting the attributes of *every* element of the document (`permRel`: names pairwise
+different) does not change what `NodeParser.parse` returns: both fail, or both succeed with the
+same object and the same number of warnings. -/
+theorem attr_order_invariant_deep (e : BEnv) (Γ : Ctx) (cfg : ParserConfig) (hΓ : ctxAll metaAttrDeep Γ = true)
+    (c : ClassId) (t t' : Tree) (h : permRel t t' = true) :
+    (parseRoot e Γ cfg c t).toOption = (parseRoot e Γ cfg c t').toOption :=
+  parseRoot_permRel e Γ cfg hΓ c t t' h
+
+/-- a universe of the kind: the class `Plain` alone (two attributes, two primitive elements) -/
+def plainCtx : Ctx := { Data.ctx with classes := [Data.plainClass], xsiIndex := [("Plain".toList, ["Plain".toList])] }
+
+/-- `<Plain b="v" a="7"><x>hello</x><y>true</y></Plain>`: `Data.plainDoc` with the attributes swapped -/
+def plainDocSwapped : Tree :=
+  .node "Plain".toList [("b".toList, "v".toList), ("a".toList, "7".toList)] [] none
+    [Data.leaf "x" (some "hello"), Data.leaf "y" (some "true")] none
+
+example : ctxAll metaAttrDeep plainCtx = true := by decide
+example : permRel Data.plainDoc plainDocSwapped = true := by decide
+example : Data.primOf (parseRoot Data.benv plainCtx {} "Plain".toList plainDocSwapped) "a" = some (.int 7) := by decide
+-- the universe with the `Attributes` class is outside the hypothesis (see `attrs_dict_order_witness`)
+example : ctxAll metaAttrDeep Data.ctx = false := by decide
 
 /-! ## 2. ignorable white space -/
 
